@@ -1650,6 +1650,10 @@ pub fn check_c07(tier: &str) -> i32 {
             }
         });
     });
+    // over real sockets: a session ended by malformed input leaves the other sessions of the same
+    // server untouched and frees its slot
+    let st_iso = crate::checks::sessions::garbage_isolation_phase();
+    rep.phase("production TCP / TLS server task: malformed input on one session, the others keep being served", st_iso, json!({}));
     rep.phase("RTU server: session re-run after every session error (port re-open)", st, json!({"probes": 4, "oracle": "session errors <= bytes received + 1"}));
     let st = parallel(client_seeds.len() * levels.len(), |j, st| {
         let (rtu, req, seed) = &client_seeds[j / levels.len()];
@@ -1757,6 +1761,6 @@ pub fn check_c07(tier: &str) -> i32 {
     }
     rep.exhaustive = true;
     rep.assumptions.push("'raw random bytes' of the quantifier is replaced by exhaustive short strings and exhaustive small edit distance around valid traffic (a bound, not an equivalence)".into());
-    rep.assumptions.push("isolation between sessions of one TCP server is checked over real sockets in C15".into());
+    rep.assumptions.push("isolation between sessions of one TCP / TLS server is checked over real sockets on a fixed set of histories here and exhaustively up to a depth in C15".into());
     rep.finish()
 }
